@@ -236,6 +236,17 @@ def conversion_cases(ctx, si, batch):
                 ctx.violation('to_SI_from(x, u) is not x times the SI magnitude of u', inp, x * ra['val'], t)
             batch.append(({'op': 'c10.to_SI', 'x': common.jrat(common.frac_of_float(x)), 'units': a}, t, inp))
             batch.append(({'op': 'c10.from_SI', 'x': common.jrat(common.frac_of_float(x)), 'units': a}, f, inp))
+            # the unit given as a (short-lived) quantity object instead of a string: same conversions
+            from pgradd.Units import eval_qty
+            t_obj = L.call(lambda: to_SI_from(x, eval_qty(a)))
+            f_obj = L.call(lambda: from_SI_to(x, eval_qty(a)))
+            ctx.count('conv_SI_object_units')
+            prev_units = getattr(ctx, '_c10_prev_units', [])
+            if t_obj != t or f_obj != f:
+                ctx.violation('a conversion with the unit given as a quantity object differs from the one with the unit string',
+                              dict(inp, units_as='eval_qty(%r)' % a, object_units_converted_before=list(prev_units)),
+                              {'to_SI': t, 'from_SI': f}, {'to_SI': t_obj, 'from_SI': f_obj})
+            ctx._c10_prev_units = (prev_units + [a])[-8:]
 
 
 def gas_constant_check(ctx, si):
@@ -418,6 +429,15 @@ def conversion_replay(ctx, si, inp):
                     ctx.violation('conversion to a compatible unit is not the ratio of magnitudes', inp, a['val'] / b['val'], r)
             elif r.get('err') != 'unitsError':
                 ctx.violation('conversion to an incompatible unit does not raise the units error', inp, 'unitsError', r)
+    elif 'units_as' in inp:
+        x, u = inp['x'], inp['units']
+        for pu in inp.get('object_units_converted_before', []):
+            L.call(lambda: to_SI_from(1.0, eval_qty(pu)))
+            L.call(lambda: from_SI_to(1.0, eval_qty(pu)))
+        got = {'to_SI': L.call(lambda: to_SI_from(x, eval_qty(u))), 'from_SI': L.call(lambda: from_SI_to(x, eval_qty(u)))}
+        want = {'to_SI': L.call(to_SI_from, x, u), 'from_SI': L.call(from_SI_to, x, u)}
+        if got != want:
+            ctx.violation('a conversion with the unit given as a quantity object differs from the one with the unit string', inp, want, got)
     else:
         x, u = inp['x'], inp['units']
         for nm, fn in (('in_units(with_units(x,u),u)', lambda: in_units(with_units(x, u), u)),
